@@ -5,6 +5,7 @@ use std::collections::HashMap;
 mod auth;
 mod cluster;
 mod decode;
+mod derive;
 mod life;
 mod mailbox;
 mod outport;
@@ -83,6 +84,8 @@ fn main() {
         "pg" => pg::run(&args),
         "pg_race" => pg::race(&args),
         "decode_drop" => decode::run(&args),
+        "derive_decode" => derive::decode(&args),
+        "derive_roundtrip" => derive::roundtrip(&args),
         "rpc" => rpc::run(&args),
         "timers" => timers::run(&args),
         "select_listen" => select::listen(&args),
